@@ -126,6 +126,11 @@ func (ft *fnTrans) call(x ssa.Value, c *ssa.CallCommon, h *Heap, reach string) {
 		ft.setResult(x, sig, results)
 		return
 	}
+	if strings.HasPrefix(key, "closure:") {
+		// a function literal of this very function is called: its body belongs to the function but is not verified
+		// (only literals handed to the modelled library helpers are evaluated) - the unit is outside the subset
+		unsup("call of a local function literal (%s): its body would go unverified", strings.TrimPrefix(key, "closure:"))
+	}
 	// unknown callee: everything may change
 	vc.assumed["havoc (no contract): "+key] = true
 	pre := h.clone()
